@@ -726,7 +726,7 @@ pub fn run_exec(spec: &ExecSpec, fss: &[FsSpec]) -> ExecResult {
     };
     GLOBAL_SEQ.store(0, Ordering::SeqCst);
     let order: Mutex<Vec<(u64, usize, usize)>> = Mutex::new(Vec::new());
-    // S4: the environment of this execution is a function of its first thread's key
+    // S8: the environment of this execution is a function of its first thread's key
     if let Some(th) = spec.threads.first() {
         crate::clock::apply_environment(th.key.0.wrapping_mul(31) ^ th.key.1);
     }
